@@ -1,6 +1,11 @@
 package props
 
-import "verif/engine"
+import (
+	"strings"
+
+	"verif/engine"
+	"verif/world"
+)
 
 // configVariants returns, for the thorough tier, copies of the scenarios under
 // deployment choices an application may legitimately make and that change how
@@ -13,7 +18,11 @@ import "verif/engine"
 // The oracles are unchanged. Depth is reduced by one to keep the tier's budget.
 func configVariants(scs []engine.Scenario, tier string, which ...string) []engine.Scenario {
 	if tier != "thorough" {
-		return nil
+		// quick tier: only the fault variant, and only of the first scenario given
+		if len(scs) == 0 || !contains(which, "faults") {
+			return nil
+		}
+		scs, which = scs[:1], []string{"faults"}
 	}
 	var out []engine.Scenario
 	for _, sc := range scs {
@@ -41,6 +50,14 @@ func configVariants(scs []engine.Scenario, tier string, which ...string) []engin
 				c.Cfg.Err500 = true
 			case "nomount":
 				c.Cfg.NoMount = true
+			case "faults":
+				// every request that presents a valid credential also runs with a storage failure at
+				// its first Load / Save / token-table call
+				orig := sc.Actions
+				c.Actions = func(s *world.Stack, w *world.World) []engine.Action {
+					acts := orig(s, w)
+					return append(acts, withFaults(acts, validCredentialMarkers, []string{"db.Save", "db.Load", "db.AddRememberToken"})...)
+				}
 			}
 			if c.Depth > 3 {
 				c.Depth--
@@ -53,6 +70,44 @@ func configVariants(scs []engine.Scenario, tier string, which ...string) []engin
 		}
 	}
 	return out
+}
+
+// withFaults returns, for every action whose name contains one of the markers (the actions that
+// present a VALID credential), copies in which the first backend call with the given seam label
+// fails. The monitors are unchanged: a backend failure never excuses a safety property.
+func withFaults(acts []engine.Action, markers, labels []string) []engine.Action {
+	var out []engine.Action
+	for _, a := range acts {
+		hit := false
+		for _, m := range markers {
+			if strings.Contains(a.Name, m) {
+				hit = true
+			}
+		}
+		if !hit || strings.Contains(a.Name, "!fault(") {
+			continue
+		}
+		for _, l := range labels {
+			a, l := a, l
+			out = append(out, engine.Action{Name: a.Name + "!fault(" + l + ")", Run: func(s *world.Stack, w *world.World) *world.Obs {
+				s.FaultLabel = l
+				defer func() { s.FaultLabel = "" }()
+				return a.Run(s, w)
+			}})
+		}
+	}
+	return out
+}
+
+var validCredentialMarkers = []string{"pw:cur", "otp:live", "totp:now", "rc:live", "rtok:live", "sms:last-to", "state:own,code=c:"}
+
+func contains(l []string, x string) bool {
+	for _, y := range l {
+		if y == x {
+			return true
+		}
+	}
+	return false
 }
 
 func lastIndexByte(s string, b byte) int {
